@@ -73,7 +73,12 @@ def main():
         mod = importlib.import_module(prop.lower())
         ctx.trusted_base = list(getattr(mod, "TRUSTED", []))
         ctx.assumptions = list(getattr(mod, "ASSUMPTIONS", []))
-        print(f"[{prop}] {run_extract()}", flush=True)
+        ex = run_extract()
+        print(f"[{prop}] {ex}", flush=True)
+        for line in ex.split("\n"):
+            if line.startswith("EXTRACT-PROBLEM "):
+                ctx.broken.append({"what": "a constant the model is regenerated from can no longer be read from the source: "
+                                           + line[len("EXTRACT-PROBLEM "):]})
         ok, log = core.lean_build(["bec2model"])
         if not ok:
             raise InternalError("the model driver does not build:\n" + log[-3000:])
